@@ -16,7 +16,8 @@ RULE = ("every library move executed by the real interpreter with the event logg
         "pair of sorted equal-length index lists (sampled when more than the budget) plus each invalid class (unsorted, "
         "duplicated, mismatched lengths, out of range, negative, empty); move_by_waypoints over waypoint lists of length 0-4 of "
         "equal / unequal shapes and all pick/drop flags; Gemini vertical_shift over all offsets -4..4, columns -1..2, every "
-        "subset of rows and invalid row lists; gr_zero_to_one over every subset of rows and invalid row lists. Valid inputs: "
+        "subset of rows and invalid row lists; gr_zero_to_one over every subset of rows and invalid row lists; rearrange / cz_move "
+        "with the same index lists on a series of different layouts back to back. Valid inputs: "
         "must not be rejected, simulator must accept and the final occupancy must be the documented one. Invalid inputs: "
         "rejected, or accepted by the simulator on the occupancy that has exactly the picked sites occupied. "
         "non-trivial = call that moves at least one atom; distinct = distinct (move, layout, arguments, occupancy).")
@@ -246,6 +247,30 @@ def gen_rearrange(C, rng, thorough):
         C.ctx.count("invalid_mismatched")
 
 
+def gen_same_args_across_layouts(C, rng, thorough):
+    """the same index lists on a series of different layouts, back to back in one process (a trace remembered from the
+    previous layout shows up as picks and releases in the wrong places)"""
+    from bloqade.shuttle.stdlib.layouts import single_col_zone, two_col_zone
+    from kirin.dialects import ilist
+    series = [(2, 3, 10.0, 2.0), (2, 3, 12.0, 2.0), (3, 3, 10.0, 4.0), (2, 3, 10.0, 2.0), (2, 4, 6.0, 2.0)]
+    for a in ([[0, 2], [0, 1], [1, 3], [1, 2]], [[1], [0, 2], [2], [0, 1]], [[0, 1, 3], [1], [0, 2, 3], [2]]):
+        for nx, ny, sp, gs in series:
+            spec = two_col_zone.get_spec(nx, ny, sp, gs)
+            zone = spec.layout.static_traps["traps"]
+            src, dst = view_sites(zone, a[0], a[1]), view_sites(zone, a[2], a[3])
+            C.call("rearrange", two_col_zone.rearrange, ("twocol", nx, ny, sp, gs), spec, tuple(ilist.IList(l) for l in a), True,
+                   src, dst, model=re_model(zone, a))
+            C.ctx.count("same_args_next_layout")
+    for a in ([[0], [0, 1], [1], [1, 2]], [[0, 2], [1], [1, 2], [0]]):
+        for nx, ny, sp in [(3, 3, 10.0), (3, 3, 4.0), (4, 3, 10.0), (3, 4, 6.0)]:
+            spec = single_col_zone.get_spec(nx, ny, sp)
+            zone = spec.layout.static_traps["traps"]
+            src = view_sites(zone, a[0], a[1])
+            C.call("cz_move", single_col_zone.cz_move, ("single", nx, ny, sp), spec, tuple(ilist.IList(l) for l in a), True,
+                   src, src, extras=view_sites(zone, a[2], a[3]), model=cz_model(zone, a))
+            C.ctx.count("same_args_next_layout")
+
+
 def gen_waypoints(C, rng, thorough):
     from bloqade.shuttle.stdlib.layouts import single_col_zone
     from bloqade.shuttle.stdlib import waypoints
@@ -332,6 +357,7 @@ def run(ctx):
     C = Calls(ctx)
     gen_cz(C, rng, thorough)
     gen_rearrange(C, rng, thorough)
+    gen_same_args_across_layouts(C, rng, thorough)
     gen_waypoints(C, rng, thorough)
     gen_gemini(C, rng, thorough)
     reqs = []
